@@ -143,6 +143,10 @@ def main():
     c.rule = "exact family: %d models x %d betas x ~10 operator pairs (density-density, spin-flip, random) x 5 bosonic frequencies + 4 times x 4 subtraction modes; non-trivial = distinct (model, quadruple) with Lehmann terms" % (len(ms), len(betas))
     c.trusted = ["TLC", "tools/exact.py comparator"]
     c.assumptions = ["exact family only", "allowed deviation: 1e-9 relative + dropped-term bound over pairs of distinct levels (1e-8 each)"]
+    # call histories of the documented workflow (spec/Workflow.tla): repeated prepare()/compute() are no-ops, a call changes the data of
+    # its own object only, and whatever the history, the finished object holds the data of the canonical linear order
+    import workflow
+    workflow.attach(c, {"SU"}, 'susceptibility')
     c.finish()
 
 
